@@ -89,7 +89,8 @@ RUST_ALLOW = "#![allow(unused, deprecated, non_camel_case_types, non_snake_case,
 
 
 class Crate:
-    def __init__(self, root, name, units, dep_bitbybit, lockfile, release_macro=False, extra_rt=(), features_nightly=()):
+    def __init__(self, root, name, units, dep_bitbybit, lockfile, release_macro=False, extra_rt=(), features_nightly=(), nostd=False):
+        self.nostd = nostd  # a #![no_std] crate holding only the declarations (no runtime, no harnesses)
         self.root = root
         self.name = name
         self.units = units
@@ -131,6 +132,12 @@ opt-level = 0
 
     def module_text(self, u: Unit):
         lines = []
+        if self.nostd:
+            lines += ["use bitbybit::{bitfield, bitenum};", "use arbitrary_int::*;"]
+            a = len(lines) + 1
+            lines += u.decl.split("\n")
+            self.spans[u.uid] = {"decl": (a, len(lines)), "h": {}}
+            return "\n".join(lines) + "\n"
         lines.append("use crate::rt::spec;")
         lines.append("use crate::rt::vany::*;")
         lines.append("use crate::{vcover, vend};")
@@ -166,16 +173,23 @@ opt-level = 0
         files = {}
         files["Cargo.toml"] = self.cargo_toml()
         lib = [RUST_ALLOW]
-        for f in self.features_nightly:
+        if self.nostd:
+            lib = ["#![no_std]", RUST_ALLOW] + [f"pub mod {u.uid};" for u in self.units]
+            files["src/lib.rs"] = "\n".join(lib) + "\n"
+            for u in self.units:
+                files[f"src/{u.uid}.rs"] = self.module_text(u)
+            lib = None
+        for f in (self.features_nightly if lib is not None else ()):
             lib.append(f"#![cfg_attr(kani, feature({f}))]")
-        lib.append("pub mod rt { pub mod spec; pub mod vany; #[cfg(not(kani))] pub mod selftest; " + " ".join(f"pub mod {os.path.splitext(os.path.basename(x))[0]};" for x in self.extra_rt) + " }")
-        for u in self.units:
-            lib.append(f"pub mod {u.uid};")
-        files["src/lib.rs"] = "\n".join(lib) + "\n"
-        for rt in ["spec.rs", "vany.rs", "selftest.rs"] + [os.path.basename(x) for x in self.extra_rt]:
-            files["src/rt/" + rt] = open(os.path.join(VERIF, "rt", rt)).read()
-        for u in self.units:
-            files[f"src/{u.uid}.rs"] = self.module_text(u)
+        if lib is not None:
+            lib.append("pub mod rt { pub mod spec; pub mod vany; #[cfg(not(kani))] pub mod selftest; " + " ".join(f"pub mod {os.path.splitext(os.path.basename(x))[0]};" for x in self.extra_rt) + " }")
+            for u in self.units:
+                lib.append(f"pub mod {u.uid};")
+            files["src/lib.rs"] = "\n".join(lib) + "\n"
+            for rt in ["spec.rs", "vany.rs", "selftest.rs"] + [os.path.basename(x) for x in self.extra_rt]:
+                files["src/rt/" + rt] = open(os.path.join(VERIF, "rt", rt)).read()
+            for u in self.units:
+                files[f"src/{u.uid}.rs"] = self.module_text(u)
         # remove stale module files
         keep = set(files)
         for dirpath, _, fns in os.walk(src):
